@@ -217,8 +217,16 @@ def wide_stream(ctx):
 def run(ctx):
     streams.hist_corr(ctx, ents=ENTS, nhist=ctx.n(8, 100))
     streams.fn_corr(ctx, ents=ENTS, ncases=ctx.n(45, 600), sizes=(1, 2, 3, 5, 8, 13, 40, 60) if ctx.quick else (1, 2, 3, 5, 8, 13, 40, 60, 200))
-    streams.presentation_variants(ctx, fn_ents=ENTS, hist_ents=ENTS)
+    from .. import variation
+    # half-precision scores too (only numbers the half formats hold exactly): default unit weights / counters must not follow the score dtype
+    streams.presentation_variants(ctx, fn_ents=ENTS, hist_ents=ENTS, modes=variation.QUICK_MODES + ["bf16", "f16"],
+                                  sizes=(1, 2, 3, 8, 40, 300, 600), hist_sizes=(1, 2, 5, 130, 300, 600))
     wide_stream(ctx)
+    # many samples of one class in half precision (a counter / default weight kept in bfloat16 stops at 256, in float16 at 2048)
+    for mode, n in (("bf16", 700), ("f16", 4500)):
+        streams.hist_corr(ctx, ents=[e for e in ENTS if e.name in ("BinaryAUROC", "BinaryAUPRC", "BinaryPrecisionRecallCurve")],
+                          name=f"history-correspondence [{mode}, {n} samples per update]", nhist=ctx.n(18, 40), variant=mode,
+                          sizes=[n], nops=(3, 4), mix={"upd": 3, "compute": 2, "merge": 0.5})
     targeted(ctx)
     fine_grid(ctx)
     exhaustive(ctx)
